@@ -229,7 +229,7 @@ def realops_guard():
 
 
 # ------------------------------------------------------------------ lane reductions (Model/VecOps.v)
-VECOPS_EXPECTED_SHA = "2392568867c3b207"
+VECOPS_EXPECTED_SHA = "e4565e9009716bd6"
 
 
 def vecops_guard():
@@ -262,6 +262,21 @@ def lane_model(fn, lane, g, ddof=0.0, glane=None, y=None, c=1.0):
                 ones = np.where(lane == 0, 1.0, lane)
                 out = np.where(lane == 0, ones.prod() / 1.0, lane.prod() / np.where(lane == 0, 1.0, lane))
         return g * out
+    if fn == "norm":
+        p = ddof          # (the order is passed in the ddof slot)
+        sgn = np.sign(lane)
+        if p == 1:
+            return sgn * g
+        if p == 2:
+            return lane / np.sqrt((lane ** 2).sum()) * g
+        ap = np.where(lane == 0, 0.0 if p != 0 else 1.0, np.abs(lane) ** p)
+        apm1 = np.where(lane == 0, 0.0 if p - 1 != 0 else 1.0, np.abs(lane) ** (p - 1))
+        return apm1 * sgn * ((ap.sum() ** (1.0 / p)) / ap.sum()) * g
+    if fn == "batchnorm_x":
+        gamma, eps = c, ddof
+        std = np.sqrt(((lane - m) ** 2).sum() / n + eps)
+        xn = (lane - m) / std
+        return (glane - glane.sum() / n - xn * (glane * xn).sum() / n) / std * gamma
     e = np.exp(lane)
     soft = e / e.sum()
     if fn == "softmax":
@@ -293,6 +308,19 @@ def lane_tie(rng, tier):
                     for fn in ("softmax", "logsoftmax"):
                         x = [round(rng.uniform(-2, 2), 3) for _ in range(n)]
                         tasks.append({"kind": "lane", "fn": fn, "shape": list(sh), "axis": ax, "x": x, "gseed": rng.randrange(10 ** 6)})
+        for sh, axes in (((5,), [None, 0]), ((3, 4), [0, 1, -1]), ((2, 3, 4), [0, 1, 2, -2])):
+            n = int(np.prod(sh))
+            for ax in axes:
+                for ordv in (None, 1, 2, 3, 4.5, 0.5, -1.5):
+                    for kd in (False, True):
+                        x = [round(rng.choice([-1, 1]) * rng.uniform(0.2, 2), 3) for _ in range(n)]
+                        tasks.append({"kind": "lane", "fn": "norm", "shape": list(sh), "axis": ax, "keepdims": kd, "ord": ordv, "x": x, "gseed": rng.randrange(10 ** 6)})
+        for sh in ((4, 2), (3, 2, 2), (2, 3, 2, 2), (2, 1, 3)):
+            C = sh[1]
+            for gm, bt in ((True, True), (True, False), (False, True), (False, False)):
+                tasks.append({"kind": "lane", "fn": "batchnorm", "shape": list(sh), "axis": None, "x": [round(rng.uniform(-2, 2), 3) for _ in range(int(np.prod(sh)))],
+                              "gamma": [round(rng.uniform(0.5, 2), 3) for _ in range(C)] if gm else None, "beta": [round(rng.uniform(-1, 1), 3) for _ in range(C)] if bt else None,
+                              "eps": rng.choice([1e-3, 0.1, 1.0]), "gseed": rng.randrange(10 ** 6)})
         for N, C in ((1, 3), (3, 4), (5, 2)):
             tasks.append({"kind": "lane", "fn": "softmax_crossentropy", "shape": [N, C], "axis": 1, "x": [round(rng.uniform(-2, 2), 3) for _ in range(N * C)],
                           "labels": [rng.randrange(C) for _ in range(N)], "gseed": rng.randrange(10 ** 6)})
@@ -300,8 +328,10 @@ def lane_tie(rng, tier):
     for t in tasks:
         x = np.array(t["x"]).reshape(t["shape"])
         ax = tuple(t["axis"]) if isinstance(t["axis"], list) else t["axis"]
-        if t["fn"] in ("softmax", "logsoftmax"):
+        if t["fn"] in ("softmax", "logsoftmax", "batchnorm"):
             oshape = x.shape
+        elif t["fn"] == "norm":
+            oshape = np.linalg.norm(x, ord=t.get("ord"), axis=ax, keepdims=t.get("keepdims", False)).shape
         elif t["fn"] == "softmax_crossentropy":
             oshape = ()
         else:
@@ -321,6 +351,27 @@ def lane_tie(rng, tier):
         x = np.array(t["x"], dtype=np.float64).reshape(t["shape"])
         nd = x.ndim
         ax = t["axis"]
+        if t["fn"] == "batchnorm":
+            # lanes = channels (axis 1); every other axis is reduced
+            C = x.shape[1]
+            Xc = np.moveaxis(x, 1, 0).reshape(C, -1)
+            Gc = np.moveaxis(np.array(r["grad"]).reshape(x.shape), 1, 0).reshape(C, -1)
+            gin = np.moveaxis(np.array(t["g"], dtype=np.float64).reshape(x.shape), 1, 0).reshape(C, -1)
+            for k in range(C):
+                n_lanes += 1
+                gam = 1.0 if t.get("gamma") is None else t["gamma"][k]
+                want = lane_model("batchnorm_x", Xc[k], None, ddof=t["eps"], glane=gin[k], c=gam)
+                ok, at = same(want, Gc[k], 1e-9, 1e-11)
+                std = np.sqrt(Xc[k].var() + t["eps"])
+                xn = (Xc[k] - Xc[k].mean()) / std
+                if ok and t.get("gamma") is not None:
+                    ok = abs(r["gamma_grad"][k] - float((gin[k] * xn).sum())) <= 1e-9 * (1 + abs(r["gamma_grad"][k]))
+                if ok and t.get("beta") is not None:
+                    ok = abs(r["beta_grad"][k] - float(gin[k].sum())) <= 1e-9 * (1 + abs(r["beta_grad"][k]))
+                if not ok:
+                    bad.append({"kind": "batchnorm, channel %d: the gradients differ from Model/VecOps.v's bn_x_bwd / bn_gamma_bwd / bn_beta_bwd" % k, "task": t})
+                    break
+            continue
         red = tuple(range(nd)) if ax is None else tuple(sorted(a % nd for a in (ax if isinstance(ax, list) else [ax])))
         keep = tuple(i for i in range(nd) if i not in red)
         perm = keep + red
@@ -340,6 +391,8 @@ def lane_tie(rng, tier):
                 want = lane_model(t["fn"], X[k], None, glane=GL[k])
             elif t["fn"] == "softmax_crossentropy":
                 want = lane_model(t["fn"], X[k], g.reshape(-1)[0], y=t["labels"][k], c=1.0 / X.shape[0])
+            elif t["fn"] == "norm":
+                want = lane_model("norm", X[k], gl[k], ddof=2.0 if t.get("ord") is None else float(t["ord"]))
             else:
                 want = lane_model(t["fn"], X[k], gl[k], ddof=float(t.get("ddof", 0)))
             ok, at = same(want, G[k], 1e-10, 1e-12)
